@@ -21,7 +21,7 @@ from .c10 import phi_leaves
 
 MANIFEST = {
     "level": "other",
-    "technique": "static analysis: path rule for the refusals, table audit against the stdlib calendar, syntactic rule on truncation (iint vs int) in the calendar algorithms, control-dependence of the century correction, pairing of forward/inverse constants extracted from the symbolically evaluated conversion routines",
+    "technique": "static analysis: path rule for the refusals, table audit against the stdlib calendar, syntactic rule on truncation (iint vs int) in the calendar algorithms, control-dependence of the century correction, pairing of forward/inverse constants extracted from the symbolically evaluated conversion routines, exhaustive decision tables (leap rule over the residues mod 400 on both sides of 1582, the Julian/Gregorian test on every ordering class of (year, month, day) against the change-over date)",
     "text": "The refusal clause is decided on every path; the month-length and month-name tables are compared with the standard library; floor semantics of INT() and its use in the algorithms, the conditional calendar switch at 15 October 1582 in both directions, and the pairing of every constant of the forward conversion with its inverse are decided from the source. Exactness of the bijection over 3.9 million days and the anchor values depend on float arithmetic of INT(365.25 * ...) and are not decided.",
     "note": "Trusted: stdlib calendar tables and leap rule; Python floor; JDN 2299161 = 15 Oct 1582 (computed in the checker with integer arithmetic). Undecided: day-level exactness of the bijection, consecutive days 1.0 apart, the three anchor JDEs.",
 }
